@@ -40,11 +40,8 @@ theorem segSum_consecutive (x : ℕ → ℝ) (s t e : ℕ) (hst : s ≤ t) (hte 
   exact Finset.sum_Ico_consecutive x hst hte
 
 /-- the squared-error cost table satisfies the split inequality PELT's exactness needs -/
-theorem l2Table_split (x : ℕ → ℝ) (m n : ℕ) (hm : 1 ≤ m) : SplitIneq (l2Table x) m n := by
-  intro s t e hadm hte _
-  have hst : s < t := by
-    rcases hadm with ⟨h0, h1⟩ | ⟨_, h1⟩ <;> omega
-  have hte' : t < e := by omega
+theorem l2Table_split_core (x : ℕ → ℝ) (s t e : ℕ) (hst : s < t) (hte' : t < e) :
+    l2Table x s t + l2Table x t e ≤ l2Table x s e := by
   have ha : (0 : ℝ) < (t : ℝ) - s := by
     have : (s : ℝ) < t := by exact_mod_cast hst
     linarith
@@ -59,6 +56,12 @@ theorem l2Table_split (x : ℕ → ℝ) (m n : ℕ) (hm : 1 ≤ m) : SplitIneq (
   have e1 : ((t : ℝ) - s) + ((e : ℝ) - t) = (e : ℝ) - s := by ring
   rw [e1] at h
   exact h
+
+theorem l2Table_split (x : ℕ → ℝ) (m n : ℕ) (hm : 1 ≤ m) : SplitIneq (l2Table x) m n := by
+  intro s t e hadm hte _
+  have hst : s < t := by
+    rcases hadm with ⟨h0, h1⟩ | ⟨_, h1⟩ <;> omega
+  exact l2Table_split_core x s t e hst (by omega)
 
 /-- the table entries are the residual sums of squares around the segment means -/
 theorem l2Table_eq_rss (x : ℕ → ℝ) (s e : ℕ) (h : s < e) :
@@ -152,11 +155,10 @@ theorem l2Table_eq_len_mul_var (x : ℕ → ℝ) (s e : ℕ) (h : s < e) :
 
 /-- the univariate Gaussian cost table satisfies the split inequality wherever the empirical variances
     are at or above the floor (at the floor itself it can fail: the property says "above the floor") -/
-theorem gaussTable_split (x : ℕ → ℝ) (m n : ℕ) (hm : 1 ≤ m)
-    (habove : ∀ s e, s + m ≤ e → e ≤ n → varFloorConst ≤ segVar x s e) :
-    SplitIneq (gaussTable x) m n := by
-  intro s t e hadm hte hen
-  have hst : s + m ≤ t := by rcases hadm with ⟨h0, h1⟩ | ⟨_, h1⟩ <;> omega
+theorem gaussTable_split_core (x : ℕ → ℝ) (m n : ℕ) (hm : 1 ≤ m)
+    (habove : ∀ s e, s + m ≤ e → e ≤ n → varFloorConst ≤ segVar x s e)
+    (s t e : ℕ) (hst : s + m ≤ t) (hte : t + m ≤ e) (hen : e ≤ n) :
+    gaussTable x s t + gaussTable x t e ≤ gaussTable x s e := by
   have ha : (0 : ℝ) < (t : ℝ) - s := by
     have : (s : ℝ) < t := by exact_mod_cast (by omega : s < t)
     linarith
@@ -167,7 +169,7 @@ theorem gaussTable_split (x : ℕ → ℝ) (m n : ℕ) (hm : 1 ≤ m)
   have v1 := habove s t hst (by omega)
   have v2 := habove t e hte hen
   have v := habove s e (by omega) hen
-  have hl2 := l2Table_split x m n hm s t e hadm hte hen
+  have hl2 := l2Table_split_core x s t e (by omega) (by omega)
   rw [l2Table_eq_len_mul_var x s t (by omega), l2Table_eq_len_mul_var x t e (by omega),
     l2Table_eq_len_mul_var x s e (by omega)] at hl2
   have e1 : ((t : ℝ) - s) + ((e : ℝ) - t) = (e : ℝ) - s := by ring
@@ -186,5 +188,12 @@ theorem gaussTable_split (x : ℕ → ℝ) (m n : ℕ) (hm : 1 ≤ m)
     Real.log_mul hpi.ne' (lt_of_lt_of_le hf v).ne']
   rw [e1] at hlog
   nlinarith [hlog]
+
+theorem gaussTable_split (x : ℕ → ℝ) (m n : ℕ) (hm : 1 ≤ m)
+    (habove : ∀ s e, s + m ≤ e → e ≤ n → varFloorConst ≤ segVar x s e) :
+    SplitIneq (gaussTable x) m n := by
+  intro s t e hadm hte hen
+  have hst : s + m ≤ t := by rcases hadm with ⟨h0, h1⟩ | ⟨_, h1⟩ <;> omega
+  exact gaussTable_split_core x m n hm habove s t e hst hte hen
 
 end Skc
